@@ -135,6 +135,14 @@ def gen(ctx):
             # the start-up fails after the output block was started: it is never initialised,
             # still it processes its stop_data and its output (number of active runs) changes
             case['failed_start'] = True
+        if sender in ('input', 'counter') and rng.random() < 0.3:
+            # the first value comes from the persistent storage (a restart): the change from
+            # UNDEF to the restored value is an output change like any other
+            case['restored'] = True
+        if rng.random() < 0.3:
+            # the application goes on using the lists it has passed as on_output /
+            # on_every_output (clears them, appends to them): the block keeps what it was given
+            case['mutate_lists'] = rng.choice(['clear', 'append'])
         yield case
 
 
@@ -240,10 +248,14 @@ def build_and_run(case, ctx):
                     x_stop=NOINIT if case.get('stop_value') is None else pool[case['stop_value']])
             feeder = s
         elif kind == 'input':
-            s = edzed.Input('snd', initdef=first, on_output=oo, on_every_output=oe)
+            s = edzed.Input('snd', on_output=oo, on_every_output=oe,
+                            **({'persistent': True} if case.get('restored')
+                               else {'initdef': first}))
             feeder = s
         elif kind == 'counter':
-            s = edzed.Counter('snd', initdef=first, on_output=oo, on_every_output=oe)
+            s = edzed.Counter('snd', on_output=oo, on_every_output=oe,
+                              **({'persistent': True, 'initdef': 12345}
+                                 if case.get('restored') else {'initdef': first}))
             feeder = s
         elif kind == 'inputexp':
             # an FSM-based sender: every accepted 'put' re-assigns the output
@@ -295,6 +307,14 @@ def build_and_run(case, ctx):
             else:
                 s = edzed.Not('snd', on_output=oo).connect(feeder)
         sender_ref[0] = s
+        if case.get('mutate_lists'):
+            for lst in (oo, oe):
+                if isinstance(lst, list):
+                    ctx.count('event_lists_modified_after_use')
+                    if case['mutate_lists'] == 'clear':
+                        lst.clear()
+                    else:
+                        lst.append(edzed.Event('d0', 'not-configured'))
         # instance-level wrappers: log the boundaries of every assignment
         if isinstance(s, edzed.SBlock):
             orig = s.set_output
@@ -362,7 +382,13 @@ def build_and_run(case, ctx):
     # 'src' without initdef needs an event before the circuit can initialise: use initdef path
     if case['sender'] == 'src' and not case['initdef']:
         case = dict(case, initdef=True)
-    out = harness.run_sim(build, drive)
+    storage = None
+    if case.get('restored'):
+        ctx.count('senders_restored_from_storage')
+        storage = harness.Storage()
+        cls = 'Input' if case['sender'] == 'input' else 'Counter'
+        dict.__setitem__(storage, f"<{cls} 'snd'>", copy.copy(pool[case['values'][0]]))
+    out = harness.run_sim(build, drive, storage=storage)
     out['hist'] = hist
     out['case'] = case
     return out
